@@ -2,6 +2,7 @@ package worlds
 
 import (
 	"fmt"
+	"sort"
 	"testing"
 
 	"verif/sim/h"
@@ -31,7 +32,13 @@ func (g *qgen) pattern() map[string]interface{} {
 		base = map[string]interface{}{"p": r.Pick([]string{"a", "b"})}
 	}
 	out := map[string]interface{}{}
-	for k, v := range base {
+	bkeys := make([]string, 0, len(base))
+	for k := range base {
+		bkeys = append(bkeys, k)
+	}
+	sort.Strings(bkeys)
+	for _, k := range bkeys {
+		v := base[k]
 		if len(base) > 1 && r.P(1, 3) {
 			continue
 		}
@@ -47,11 +54,8 @@ func (g *qgen) pattern() map[string]interface{} {
 			out[k] = v
 		}
 	}
-	if len(out) == 0 {
-		for k, v := range base {
-			out[k] = v
-			break
-		}
+	if len(out) == 0 && len(bkeys) > 0 {
+		out[bkeys[0]] = base[bkeys[0]]
 	}
 	return map[string]interface{}{"pattern": out}
 }
